@@ -524,11 +524,17 @@ pub fn explore(cfg: &Cfg, ctx: &Ctx) -> Explored {
                             // A boundary reached by a transition on which only *another* property's rule
                             // fired (e.g. a wrong count returned by finalize) is still a boundary state whose
                             // freshness C14 must examine; it is collected but not expanded.
-                            if cfg.collect_boundaries && info.boundary.is_some() && !reported {
+                            let desync = info.findings.iter().any(|(c, _)| crate::mon::is_desync(c));
+                            if cfg.collect_boundaries && info.boundary.is_some() && !reported && desync {
                                 let snap = child.serialize(&mut ser);
                                 co.bounds.push((snap, pi as u32, si as u16));
                             }
-                            continue;
+                            // this check's own findings end the path; so does a finding after which monitor
+                            // and decoder are out of step. Other properties' findings are left to their own
+                            // checks and exploration goes on.
+                            if reported || desync {
+                                continue;
+                            }
                         }
                         let snap = child.serialize(&mut ser);
                         if cfg.collect_boundaries && info.boundary.is_some() {
@@ -834,10 +840,15 @@ pub fn replay(case: &J) -> Vec<Viol> {
                     eprintln!("    {:<14} -> {}", s.token(), if info.outs.is_empty() { "-".to_string() } else { info.outs.join(", ") });
                 }
                 if !info.findings.is_empty() {
+                    let desync = info.findings.iter().any(|(c, _)| crate::mon::is_desync(c));
                     for (class, what) in info.findings {
                         out.push(e1_viol(kind, class, what, &sofar, &g.1));
                     }
-                    break;
+                    // same rule as the exploration: only a finding that puts monitor and decoder out
+                    // of step ends the replay; later findings on the same path are listed too
+                    if desync {
+                        break;
+                    }
                 }
             }
             out
